@@ -211,6 +211,24 @@ func (c *ctx) fileWrites() {
 			}
 		}
 		c.s.Check(good, "G4", "main.run|Process gets -file's OUT or genFilename(path)", c.pos(fd), "", "the output path handed to Process is not the -file IN=OUT value or genFilename(input path)")
+		// the -file table is read-only while packages are processed
+		if proc != nil {
+			var pkgLoop ast.Stmt
+			for x := ast.Node(proc); x != nil && x != ast.Node(fd); x = fc.par[x] {
+				if rs, ok := x.(*ast.RangeStmt); ok {
+					pkgLoop = rs
+				}
+			}
+			bad := false
+			if pkgLoop != nil {
+				astx.Writes(pkgLoop, func(l ast.Expr, at ast.Node) {
+					if ix, ok := astx.Unparen(l).(*ast.IndexExpr); ok && isMapType(info.TypeOf(ix.X)) {
+						bad = true
+					}
+				})
+			}
+			c.s.Check(pkgLoop != nil && !bad, "G4", "main.run|no table is written while files are processed", c.pos(fd), "the -file IN=OUT table is filled before the loop and only read in it", "a map is written inside the per-file loop of run(): the output path of one file can depend on files (of other packages) processed before it")
+		}
 	} else {
 		c.s.Unk("G4", "main.run", "", "function not found")
 	}
